@@ -68,8 +68,13 @@ func protocolMore(t *testing.T, bind *Binding, job *Job, p *sdl.Program, acc *st
 		for _, s := range sweepSpecs(p, job, SpecData{}) {
 			do(s)
 		}
-	case "C15", "C18":
+	case "C15":
 		for _, s := range sweepSpecs(p, job, SpecData{GetPaths: model.AllLeafPaths(p)}) {
+			do(s)
+		}
+	case "C18":
+		// lazy components are created by the lookups that follow Run
+		for _, s := range sweepSpecs(p, job, SpecData{GetPaths: model.AllLeafPaths(p), Lookups: true}) {
 			do(s)
 		}
 	case "C14":
@@ -223,7 +228,7 @@ func nonTrivialMore(prop string, w *model.World, out *model.Outcome, o *model.Ob
 	case "C18":
 		for _, t := range w.P.Types {
 			for _, cf := range t.Config {
-				if cf.Validate != "" || cf.Menu == "sum" || cf.Menu == "mul" {
+				if cf.Validate != "" || cf.Menu == "sum" || cf.Menu == "mul" || cf.Menu == "sumDef" {
 					return true
 				}
 			}
